@@ -213,3 +213,42 @@ func Across4G(n, before int, src []byte) []byte {
 	}
 	return b
 }
+
+var (
+	cong4GOnce sync.Once
+	cong4GLo   []byte
+	cong4GHi   []byte
+)
+
+// Congruent4G returns two process-wide mappings of 128 KiB each whose addresses differ by EXACTLY 2^32: lo[i] and hi[i] have the same
+// low 32 address bits. Code that compares or subtracts two pointers in 32 bits takes them for the same buffer (or for overlapping
+// ones). nil, nil if the kernel does not grant the addresses.
+func Congruent4G() (lo, hi []byte) {
+	cong4GOnce.Do(func() {
+		const mapFixedNoReplace = 0x100000
+		const size = 128 << 10
+		for k := uintptr(0x6e00); k < 0x6e40; k += 2 {
+			a0 := k<<32 + 0x10000
+			a1 := (k+1)<<32 + 0x10000
+			p0, _, e0 := syscall.Syscall6(syscall.SYS_MMAP, a0, size, syscall.PROT_READ|syscall.PROT_WRITE, syscall.MAP_ANON|syscall.MAP_PRIVATE|mapFixedNoReplace, ^uintptr(0), 0)
+			if e0 != 0 || p0 != a0 {
+				if e0 == 0 {
+					syscall.Syscall(syscall.SYS_MUNMAP, p0, size, 0)
+				}
+				continue
+			}
+			p1, _, e1 := syscall.Syscall6(syscall.SYS_MMAP, a1, size, syscall.PROT_READ|syscall.PROT_WRITE, syscall.MAP_ANON|syscall.MAP_PRIVATE|mapFixedNoReplace, ^uintptr(0), 0)
+			if e1 != 0 || p1 != a1 {
+				if e1 == 0 {
+					syscall.Syscall(syscall.SYS_MUNMAP, p1, size, 0)
+				}
+				syscall.Syscall(syscall.SYS_MUNMAP, p0, size, 0)
+				continue
+			}
+			cong4GLo = unsafe.Slice((*byte)(unsafe.Pointer(p0)), size)
+			cong4GHi = unsafe.Slice((*byte)(unsafe.Pointer(p1)), size)
+			return
+		}
+	})
+	return cong4GLo, cong4GHi
+}
